@@ -723,7 +723,7 @@ func TestVerifC15(t *testing.T) {
 		}
 		// half from exported pairs (stride), half random with local edits so that classes repeat
 		stride := 1
-		if nPairs > nTrace/2 {
+		if nTrace >= 4 && nPairs > nTrace/2 {
 			stride = nPairs / (nTrace / 4)
 		}
 		i := 0
